@@ -171,9 +171,8 @@ def helper_unpairs(cfg, key, depth=0):
     return ok
 
 
-def r1(ctx, cfg):
+def r1(ctx, cfg, R="C14.R1"):
     F, P = cfg.facts, cfg.prov
-    R = "C14.R1"
     n_rm = 0
     n_sv = 0
     rm_roots = set()
@@ -338,6 +337,12 @@ def r2(ctx, cfg):
                         o2 = peel(P.rvalue(f, st["rv"], (b2, i2)))
                         if not (o2[0] == "call" and o2[1].endswith("FromResidual::from_residual")):
                             ok = False
+            # ... and no success result is produced without having seen the record (a shortcut `return Ok(())` placed
+            # before the lookup lets delegate / redelegate to an unknown validator go through)
+            around = [site for site, val in q.success_return_sites(P, f) if not any(cf.dominates(e, site[0]) for e in present)]
+            ctx.ob(R, key, "unknown-validator-never-succeeds", bool(present) and not around,
+                   "update_rewards can return a success at block(s) %s without having found the validator's record" % sorted(set(b for b, i in around)),
+                   fn=f, sample="every non-Err result dominated by the record being present")
         ctx.ob(R, key, "unknown-validator-is-an-error-before-any-write", ok, "update_rewards does not reject an unknown validator before writing", fn=f,
                sample="may_load(..)?.ok_or_else(..)? dominates every save")
     # block updates unwrap only process_queue
